@@ -196,6 +196,10 @@ func (vc *VC) structSort(t types.Type, st *types.Struct) string {
 	if vc.declared[name] {
 		return name
 	}
+	if vc.p.structTypes == nil {
+		vc.p.structTypes = map[string]types.Type{}
+	}
+	vc.p.structTypes[name] = t
 	// Declare field sorts first.
 	var fields []string
 	for i := 0; i < st.NumFields(); i++ {
